@@ -8,7 +8,11 @@ import z3
 from symtorch import engine as E
 from symtorch.runner import Harness
 from symtorch.scalar import (to_real_expr, to_int_expr, s_eq_total, s_not, s_or, s_and, s_cmp, s_add, s_sub, s_mul, s_div,
-                             s_neg, s_ite, XR, xr, is_sym)
+                             s_neg, s_ite, XR, xr, is_sym, to_bool_expr, s_bool)
+
+
+def to_bool(c):
+    return to_bool_expr(s_bool(c))
 from checks import strmatch as SM
 from checks.base import task
 
@@ -204,20 +208,54 @@ class HardOcdLossH(Harness):
         hf, hs = self._layout(hypv, H, N)
         ref = eng.tensor(rf, rs, torch.int64)
         hyp = eng.tensor(hf, hs, torch.int64)
-        lg = [[[eng.grid(f"x{j}_{n}_{v}", -8, 8, 4) for v in range(V)] for n in range(N)] for j in range(H)]
+        # every logit is either a grid value or -inf (a masked class); at least one class per row stays finite
+        lg = []
+        for j in range(H):
+            lg.append([])
+            for n in range(N):
+                row = []
+                flags = []
+                for v in range(V):
+                    g = eng.grid(f"x{j}_{n}_{v}", -8, 8, 4)
+                    if c.get("minf"):
+                        m = eng.bool(f"minf{j}_{n}_{v}")
+                        flags.append(m)
+                        row.append(XR(False, g, m, False))
+                    else:
+                        row.append(g)
+                if flags:
+                    eng.assume(z3.Not(z3.And(*flags)))
+                lg[-1].append(row)
         lgf, lgs = self._layout(lg, H, N)
         logits = eng.tensor([x for row in lgf for x in row], tuple(lgs) + (V,), torch.float32)
         self.lse = {}
 
+        def lse_of(e, r):
+            key = tuple(str(x) for x in r)
+            if key not in self.lse:
+                l = z3.Real(f"lse!{len(self.lse)}")
+                self.lse[key] = (l, list(r))
+                # contract of logsumexp: at least every finite entry; equal to the entry when it is the only finite one
+                xs = [xr(x) for x in r]
+                nfin = z3.Sum([z3.If(to_bool(x.fin()), 1, 0) for x in xs])
+                for i, x in enumerate(xs):
+                    fin = to_bool(x.fin())
+                    xv = to_real_expr(x.val)
+                    e.pc.append(z3.Implies(fin, l >= xv))
+                    e.pc.append(z3.Implies(z3.And(fin, nfin >= 2), l > xv))       # strictly above every entry when several are finite
+                    e.pc.append(z3.Implies(z3.And(fin, nfin == 1), l == xv))      # equal to the only finite entry
+                    # lse <= max + log(n) <= max + 1.4 for n <= 4: stated per entry as "some finite entry is within 1.4 of lse"
+                e.pc.append(z3.Or(*[z3.And(to_bool(x.fin()), l <= to_real_expr(x.val) + z3.RealVal("1.4")) for x in xs]))
+            return self.lse[key][0]
+
+        self._lse_of = lse_of
+
         def log_softmax_stub(e, func, ov, a, dim, half):
-            # a: (rows, V) of cells; lse(row) is uninterpreted, keyed by the row's cell terms
+            # a: (rows, V) of cells; lse(row) is uninterpreted (with the contract above), keyed by the row's cell terms
             rows = a.nested() if a.dim() == 2 else [a.nested()]
             out = []
             for r in rows:
-                key = tuple(str(x) for x in r)
-                if key not in self.lse:
-                    self.lse[key] = (z3.Real(f"lse!{len(self.lse)}"), list(r))
-                l = self.lse[key][0]
+                l = lse_of(e, r)
                 out.extend(s_sub(x, l) for x in r)
             return e.tensor(out, a.shape, torch.float32)
 
@@ -235,10 +273,7 @@ class HardOcdLossH(Harness):
             for n in range(N):
                 slots = on[n][j] if c["batch_first"] else on[j][n]
                 row = lg[j][n]
-                key = tuple(str(x) for x in row)
-                if key not in self.lse:
-                    self.lse[key] = (z3.Real(f"lse!{len(self.lse)}"), list(row))
-                l = self.lse[key][0]
+                l = self._lse_of(eng, row)
                 tot = 0.0
                 cnt = 0
                 for s in slots:
@@ -285,6 +320,7 @@ class HardOcdLossH(Harness):
         cons = []
         for key, (var, cells) in self.lse.items():
             xs = [float(E.eval_cell(model, x)) for x in cells]
+            xs = [x for x in xs if x != -math.inf]
             m = max(xs)
             l = m + math.log(sum(math.exp(x - m) for x in xs))
             cons.append(var == z3.RealVal(Fraction(l).limit_denominator(10 ** 9)))
@@ -299,7 +335,7 @@ class HardOcdLossH(Harness):
         hf, hs = self._layout(hypv, H, N)
         ref = torch.tensor(rf, dtype=torch.long).reshape(rs)
         hyp = torch.tensor(hf, dtype=torch.long).reshape(hs)
-        lg = [[[vals[f"x{j}_{n}_{v}"] / 4 for v in range(V)] for n in range(N)] for j in range(H)]
+        lg = [[[(-math.inf if (c.get("minf") and vals.get(f"minf{j}_{n}_{v}")) else vals[f"x{j}_{n}_{v}"] / 4) for v in range(V)] for n in range(N)] for j in range(H)]
         lgf, lgs = self._layout(lg, H, N)
         logits = torch.tensor(lgf, dtype=torch.float32).reshape(tuple(lgs) + (V,))
         wv = self._wvals()
@@ -328,7 +364,10 @@ class HardOcdLossH(Harness):
             failures.append("shape mismatch")
         else:
             for k, (a, b) in enumerate(zip(o, spec)):
-                if not abs(a - b) <= 1e-4 * (1 + abs(b)):
+                if (math.isinf(b) or math.isinf(a) or math.isnan(a) or math.isnan(b)):
+                    if not (a == b or (math.isnan(a) and math.isnan(b))):
+                        failures.append(f"loss cell {k}: got {a} expected {b}")
+                elif not abs(a - b) <= 1e-4 * (1 + abs(b)):
                     failures.append(f"loss cell {k}: got {a} expected {b}")
         return dict(outputs=o, failures=failures)
 
@@ -349,7 +388,7 @@ META = dict(
     assumptions=[
         "PYTORCH_JIT=0", "costs/logits on the quarter grid; mathematical integers/reals",
         "sort ties broken towards the lowest index in the model (oracle independent of tie order)",
-        "log_softmax(x)_v = x_v - lse(x) with lse uninterpreted (true logsumexp is one admissible value); pinned to the true value for engine validation and replay",
+        "log_softmax(x)_v = x_v - lse(x) with lse uninterpreted except for its contract (>= every finite entry; equal to the entry when only one is finite); pinned to the true value for engine validation and replay; logits may be -inf (masked classes) in the minf configurations",
         "excluded as in the property: empty hypothesis together with exclude_last",
     ],
     outside=["costs off the quarter grid", "lengths beyond the bound", "TorchScript variants", "gradients"],
@@ -370,6 +409,7 @@ def tasks(tier):
         for red, bf, w in (("mean", False, False), ("none", True, True), ("sum", False, False)):
             ts.append(task(PROP, M_, "HardOcdLossH", R=2, H=2, N=2 if red != "none" else 1, V=3, eos=0, include_eos=True, batch_first=bf, reduction=red,
                            costs=[1.0, 1.0, 1.0], weight=w))
+        ts.append(task(PROP, M_, "HardOcdLossH", R=2, H=2, N=1, V=3, eos=0, include_eos=True, batch_first=False, reduction="mean", costs=[1.0, 1.0, 1.0], weight=False, minf=True))
     else:
         for R, H in itertools.product(range(1, 4), range(1, 4)):
             V = min(5, R + 2)
@@ -387,4 +427,6 @@ def tasks(tier):
         for red, bf, w, ie in itertools.product(["mean", "none", "sum"], [False, True], [False, True], [False, True]):
             ts.append(task(PROP, M_, "HardOcdLossH", R=3, H=3, N=2, V=3, eos=0, include_eos=ie, batch_first=bf, reduction=red, costs=uneq, weight=w,
                            as_module=(red == "sum")))
+            if not w and not bf:
+                ts.append(task(PROP, M_, "HardOcdLossH", R=2, H=3, N=1, V=3, eos=0, include_eos=ie, batch_first=False, reduction=red, costs=uneq, weight=False, minf=True))
     return ts
